@@ -392,3 +392,8 @@ def check_formula(ctx, rule, fn, what, outs, formula, key, only_full=False, min_
 def all_raise(ctx, rule, fn, what, outs, key):
     ctx.check(rule, fn, bool(outs) and all(o.kind == "raise" for o in outs), f"{what}: refused",
               f"{what}: accepted ({[o for o in outs if o.kind != 'raise'][:1]})", key=key)
+
+
+def orders(ctx, quick, extra=()):
+    """Orders evaluated in the quick tier, plus ``extra`` in the thorough tier."""
+    return tuple(quick) + (tuple(extra) if getattr(ctx, "tier", "quick") == "thorough" else ())
